@@ -69,6 +69,7 @@ package flows
 
 // ---- C03 / C06: group lists and query based groups
 //@ pred groupsOK(l *GroupList) bool := l != nil && (forall k int :: 0 <= k && k < len(l.groups) ==> l.groups[k] != nil)
+//@ pred noDupUUIDs(gs []*Group) bool := forall a int, b int :: (0 <= a && a < b && b < len(gs)) ==> gs[a].UUID() != gs[b].UUID()
 //@ pred memberOf(l *GroupList, uuid assets.GroupUUID) bool := exists k int :: 0 <= k && k < len(l.groups) && l.groups[k].UUID() == uuid
 
 //@ func (l *GroupList) FindByUUID
@@ -87,14 +88,18 @@ package flows
 //@   ensures [unchanged] !result ==> l.groups == old(l.groups)
 //@   ensures [appended] result ==> (len(l.groups) == old(len(l.groups)) + 1 && (forall k int :: 0 <= k && k < old(len(l.groups)) ==> l.groups[k] == old(l.groups)[k]) && l.groups[len(l.groups) - 1] == group)
 //@   ensures [ok] groupsOK(l)
+//@   ensures [members] forall u assets.GroupUUID :: memberOf(l, u) <==> (old(memberOf(l, u)) || u == group.UUID())
+//@   ensures [nodup] noDupUUIDs(old(l.groups)) ==> noDupUUIDs(l.groups)
 
 //@ func (l *GroupList) Remove
 //@   requires groupsOK(l) && group != nil
 //@   assigns l.groups
 //@   ensures [result] result <==> old(memberOf(l, group.UUID()))
 //@   ensures [unchanged] !result ==> l.groups == old(l.groups)
-//@   ensures [removed] result ==> (exists i int :: 0 <= i && i < old(len(l.groups)) && old(l.groups)[i].UUID() == group.UUID() && (forall j int :: 0 <= j && j < i ==> old(l.groups)[j].UUID() != group.UUID()) && len(l.groups) == old(len(l.groups)) - 1 && (forall j int :: 0 <= j && j < i ==> l.groups[j] == old(l.groups)[j]) && (forall j int :: i <= j && j < len(l.groups) ==> l.groups[j] == old(l.groups)[j + 1]))
+//@   ensures [removed] result ==> (exists i int :: 0 <= i && i < old(len(l.groups)) && old(l.groups)[i].UUID() == group.UUID() && (forall j int :: 0 <= j && j < i ==> old(l.groups)[j].UUID() != group.UUID()) && len(l.groups) == old(len(l.groups)) - 1 && (forall j int :: 0 <= j && j < i ==> l.groups[j] == old(l.groups)[j]) && (forall j int :: i <= j && j < len(l.groups) ==> l.groups[j] == old(l.groups)[j + 1]) && (forall j int :: i < j && j < old(len(l.groups)) ==> old(l.groups)[j] == l.groups[j - 1]))
 //@   ensures [ok] groupsOK(l)
+//@   ensures [members] noDupUUIDs(old(l.groups)) ==> (forall u assets.GroupUUID :: memberOf(l, u) <==> (old(memberOf(l, u)) && u != group.UUID()))
+//@   ensures [nodup] noDupUUIDs(old(l.groups)) ==> noDupUUIDs(l.groups)
 //@ loop 1
 //@   invariant forall k int :: 0 <= k && k <= $i ==> l.groups[k].UUID() != group.UUID()
 //@   invariant l.groups == old(l.groups)
@@ -103,3 +108,31 @@ package flows
 //@   requires l != nil
 //@   assigns l.groups
 //@   ensures len(l.groups) == 0
+
+// ---- C06: query based group membership
+// a query based group's verdict on a contact is a function of the group and of the contact's
+// attributes other than its groups (query based groups cannot query group membership)
+//@ func (g *Group) CheckQueryBasedMembership
+//@   pure
+//@   reads Contact::uuid, Contact::id, Contact::name, Contact::language, Contact::status, Contact::timezone, Contact::createdOn, Contact::lastSeenOn, Contact::urns, Contact::fields, Contact::ticket, elems[*ContactURN], ContactURN::urn, ContactURN::channel, map[string]*Value, Value::*, Ticket::*
+
+// the contact's assets: the engine's session assets with group assets whose UUIDs are unique (NewGroupAssets indexes them by UUID)
+//@ pred contactAssetsOK(c *Contact) bool := c != nil && !isnil(c.assets) && c.assets.(*engine.sessionAssets) != nil && c.assets.(*engine.sessionAssets).groups != nil && (forall k int :: 0 <= k && k < len(c.assets.(*engine.sessionAssets).groups.all) ==> c.assets.(*engine.sessionAssets).groups.all[k] != nil) && noDupUUIDs(c.assets.(*engine.sessionAssets).groups.all)
+
+// membership of every query based group agrees with its query (false for non-active contacts)
+//@ pred groupsMatch(c *Contact, env envs.Environment) bool := forall k int :: (0 <= k && k < len(c.assets.(*engine.sessionAssets).groups.all) && c.assets.(*engine.sessionAssets).groups.all[k].UsesQuery()) ==> (memberOf(c.groups, c.assets.(*engine.sessionAssets).groups.all[k].UUID()) <==> c.assets.(*engine.sessionAssets).groups.all[k].CheckQueryBasedMembership(env, c))
+
+//@ func (c *Contact) ReevaluateQueryBasedGroups
+//@   requires contactAssetsOK(c) && groupsOK(c.groups) && noDupUUIDs(c.groups.groups)
+//@   assigns c.groups.groups
+//@   ensures [match] groupsMatch(c, env)
+//@   ensures [others_kept] forall u assets.GroupUUID :: (memberOf(c.groups, u) != old(memberOf(c.groups, u))) ==> (exists k int :: 0 <= k && k < len(c.assets.(*engine.sessionAssets).groups.all) && c.assets.(*engine.sessionAssets).groups.all[k].UsesQuery() && c.assets.(*engine.sessionAssets).groups.all[k].UUID() == u)
+//@   ensures [added] forall j int :: (0 <= j && j < len(result0)) ==> (result0[j] != nil && memberOf(c.groups, result0[j].UUID()) && !old(memberOf(c.groups, result0[j].UUID())))
+//@   ensures [removed] forall j int :: (0 <= j && j < len(result1)) ==> (result1[j] != nil && !memberOf(c.groups, result1[j].UUID()) && old(memberOf(c.groups, result1[j].UUID())))
+//@   ensures [rep] groupsOK(c.groups) && noDupUUIDs(c.groups.groups)
+//@ loop 1
+//@   invariant groupsOK(c.groups) && noDupUUIDs(c.groups.groups)
+//@   invariant forall k int :: (0 <= k && k <= $i && c.assets.(*engine.sessionAssets).groups.all[k].UsesQuery()) ==> (memberOf(c.groups, c.assets.(*engine.sessionAssets).groups.all[k].UUID()) <==> c.assets.(*engine.sessionAssets).groups.all[k].CheckQueryBasedMembership(env, c))
+//@   invariant forall u assets.GroupUUID :: (memberOf(c.groups, u) != old(memberOf(c.groups, u))) ==> (exists k int :: 0 <= k && k <= $i && c.assets.(*engine.sessionAssets).groups.all[k].UsesQuery() && c.assets.(*engine.sessionAssets).groups.all[k].UUID() == u)
+//@   invariant forall j int :: (0 <= j && j < len(added)) ==> (added[j] != nil && memberOf(c.groups, added[j].UUID()) && !old(memberOf(c.groups, added[j].UUID())) && (exists k int :: 0 <= k && k <= $i && c.assets.(*engine.sessionAssets).groups.all[k] == added[j]))
+//@   invariant forall j int :: (0 <= j && j < len(removed)) ==> (removed[j] != nil && !memberOf(c.groups, removed[j].UUID()) && old(memberOf(c.groups, removed[j].UUID())) && (exists k int :: 0 <= k && k <= $i && c.assets.(*engine.sessionAssets).groups.all[k] == removed[j]))
